@@ -65,6 +65,14 @@ PROPS = {
         assumptions=COMMON_ASSUMPTIONS + ["crash model: the process stops between two file-system operations or after any byte of a write; completed operations are durable in order (no power-loss reordering)", "exhaustive over the cut points of each generated update, sampled over update histories"],
         exhaustive=True,
     ),
+    "C20": dict(
+        harness="c20", pkg="mfs", test="TestVerifC20", yield_pkgs=["mfs", "ipld/unixfs/mod"], level="exploration",
+        quick=dict(runs=16 * 600, budget=120), thorough=dict(runs=16 * 10000, budget=1500),
+        rule="one case = 1-2 shared files (/f0, /d/f1) plus a scratch file, 2-4 tasks with <=6 quick / <=12 thorough ops each (write = open-for-write, truncate, write a unique payload, optional Flush, Close; read = open, read all, close; Mode, ModTime, SetMode, SetModTime, Size, ListNames, FlushPath(/), File.Flush, Mv of the scratch file), republisher on/off, scheduling tape; distinct = distinct event-log fingerprint; non-trivial = at least one context switch",
+        real=["mfs Root/Directory/File/fileDescriptor with real sync.RWMutex semantics (writer preference)", "unixfs/mod DagModifier", "unixfs io directories and DagReader", "mfs Republisher (when enabled)"],
+        stub=["DAG service (simdag: every Get/Add parks)", "publish function"],
+        assumptions=COMMON_ASSUMPTIONS + ["workload rule: a task holds at most one open descriptor and calls only descriptor methods while it holds one, so the harness cannot deadlock itself", "a deadlock is reported when client tasks are unfinished, nothing is runnable and no timer is pending within the horizon (stuck stacks are in the replay file)"],
+    ),
     "C02": dict(
         harness="c02", pkg="blockstore", test="TestVerifC02", yield_pkgs=["blockstore"], level="exploration",
         quick=dict(runs=16 * 2500, budget=90), thorough=dict(runs=16 * 60000, budget=1500),
